@@ -1,7 +1,7 @@
 """C12 root_attach moves only root children, to the lowest node spanning the neighbours."""
 from .. import model, sweep
 from ..runner import Result, scratch
-from ..bridge import T, build, quiet, monitor, extract, mt_equal, all_nodes, build_via_export, perturb, compare_written
+from ..bridge import T, build, quiet, monitor, extract, mt_equal, all_nodes, build_via_export, perturb, compare_written, build_any
 
 from trees import transform
 
@@ -107,11 +107,11 @@ def check_tree(mtj, order=None, pre=None):
     case = {'mt': mtj, 'order': order, 'pre': pre}
     out = []
     try:
-        if pre:
+        if pre == 'punctuation_root':
             mt = model.MT(mt.sid, [dict(tk, word=',' if i % 2 else tk['word']) for i, tk in enumerate(mt.toks)], mt.root)
-        t = build_via_export(mt, scratch()) if order == 'export' else build(mt, child_order=order)
+        t = build_any(mt, order)
         if pre:
-            t = transform.punctuation_root(t)
+            t = getattr(transform, pre)(t)
             mt = extract(t)
     except Exception as e:
         return [{'kind': 'exception', 'where': 'punctuation_root', 'case': case,
@@ -204,7 +204,7 @@ def run_chunk(chunk):
     with quiet():
         for sh, k in sweep.iter_shapes(chunk):
             mt = make_mt(sh)
-            for order in (None, 'rev', 'export'):
+            for order in (None, 'rev', 'export', 'written'):
                 vs, moves = check_tree(mt.to_json(), order)
                 res.evals += 1
                 if moves:
@@ -218,6 +218,12 @@ def run_chunk(chunk):
             res.evals += 1
             res.nontrivial += 1 if moves3 else 0
             res.outcome((model.shape_str(sh), 'VROOT-labels', moves3, len(vs)))
+            for v in vs:
+                res.violation(v['kind'], v['where'], v['case'], v['detail'], v['what'])
+            # a TOP node above the root: its single child spans the sentence, nothing may move
+            vs, moves4 = check_tree(mt.to_json(), None, 'add_topnode')
+            res.evals += 1
+            res.outcome((model.shape_str(sh), 'add_topnode', moves4, len(vs)))
             for v in vs:
                 res.violation(v['kind'], v['where'], v['case'], v['detail'], v['what'])
             if len(model.leaves(sh)) >= 3:
